@@ -4,6 +4,8 @@ import (
 	"fmt"
 	"go/token"
 	"go/types"
+	"math/big"
+	"regexp"
 	"strings"
 )
 
@@ -433,10 +435,90 @@ func (m *Machine) strBytes(a Str) []Int {
 	return out
 }
 
+// parts returns the structured form of a string if it has one.
+func (s Str) parts() ([]strPart, bool) {
+	if s.IsB {
+		return nil, false
+	}
+	if s.S == "" {
+		return []strPart{{Lit: s.C}}, true
+	}
+	if s.P != nil {
+		return s.P, true
+	}
+	return nil, false
+}
+
+var canonInt = regexp.MustCompile(`^(0|-?[1-9][0-9]*)$`)
+
+// structEq decides equality of strings of the shape literal [+ integer rendering] without string
+// reasoning: an integer rendering is digits (with optional sign) and the literal in front of it is
+// empty or ends with '_', so the split is unique.
+func (m *Machine) structEq(a, b Str) (Bool, bool) {
+	pa, ok1 := a.parts()
+	pb, ok2 := b.parts()
+	if !ok1 || !ok2 {
+		return Bool{}, false
+	}
+	shape := func(p []strPart) (lit string, big string, ok bool) {
+		switch {
+		case len(p) == 1 && p[0].Big == "":
+			return p[0].Lit, "", true
+		case len(p) == 1:
+			return "", p[0].Big, true
+		case len(p) == 2 && p[0].Big == "" && p[1].Big != "" && strings.HasSuffix(p[0].Lit, "_"):
+			return p[0].Lit, p[1].Big, true
+		}
+		return "", "", false
+	}
+	la, ba, oka := shape(pa)
+	lb, bb, okb := shape(pb)
+	if !oka || !okb {
+		return Bool{}, false
+	}
+	switch {
+	case ba != "" && bb != "":
+		if la != lb {
+			return CB(false), true
+		}
+		if ba == bb {
+			return CB(true), true
+		}
+		return Bool{S: "(= " + ba + " " + bb + ")"}, true
+	case ba == "" && bb == "":
+		return CB(la == lb), true
+	}
+	// literal vs literal+integer
+	if ba == "" {
+		la, lb, bb, ba = lb, la, ba, bb
+	}
+	// now a = la+int(ba), b = literal lb
+	if !strings.HasPrefix(lb, la) {
+		return CB(false), true
+	}
+	rest := lb[len(la):]
+	if !canonInt.MatchString(rest) {
+		return CB(false), true
+	}
+	v, ok := new(big.Int).SetString(rest, 10)
+	if !ok || v.BitLen() > 126 {
+		return CB(false), true
+	}
+	return Bool{S: "(= " + ba + " " + Big{V: v}.Term() + ")"}, true
+}
+
 func (m *Machine) strEq(a, b Str) Bool {
 	if a.IsC() && b.IsC() {
 		return CB(a.C == b.C)
 	}
+	if a.IsB && b.IsB && a.Org != nil && b.Org != nil && len(a.B) == len(b.B) {
+		// both are values of the same injective hash: equal iff the hashed strings are equal
+		return m.strEq(*a.Org, *b.Org)
+	}
+	if r, ok := m.structEq(a, b); ok {
+		return r
+	}
+	m.flushAxioms()
 	if a.IsB || b.IsB {
 		if (a.S != "" && !a.IsB) || (b.S != "" && !b.IsB) {
 			// over-approximation (any verdict): only library text round-trips compare these
@@ -472,7 +554,21 @@ func (m *Machine) strConcat(a, b Str) Str {
 	if b.IsC() && b.C == "" {
 		return a
 	}
-	return Str{S: "(str.++ " + a.T() + " " + b.T() + ")"}
+	out := Str{S: "(str.++ " + a.T() + " " + b.T() + ")"}
+	pa, ok1 := a.parts()
+	pb, ok2 := b.parts()
+	if ok1 && ok2 {
+		ps := append([]strPart{}, pa...)
+		for _, q := range pb {
+			if n := len(ps); n > 0 && ps[n-1].Big == "" && q.Big == "" {
+				ps[n-1].Lit += q.Lit
+			} else {
+				ps = append(ps, q)
+			}
+		}
+		out.P = ps
+	}
+	return out
 }
 
 func (m *Machine) strSlice(s Str, lo, hi *Int) Val {
@@ -528,6 +624,9 @@ func (m *Machine) bytesToStr(s Slice) Str {
 		ln = m.concretize(ln, "string(bytes) length")
 	}
 	out := Str{IsB: true}
+	if s.B.Org != nil && s.Off.IsC() && s.Off.C == 0 && s.B.Cap.IsC() && s.B.Cap.C == ln.C {
+		out.Org = s.B.Org
+	}
 	allC := true
 	for i := uint64(0); i < ln.C; i++ {
 		b := m.baSel(s.B, m.add(s.Off, CI(64, i)))
